@@ -18,7 +18,7 @@
 //!   area `c05e` : engine level, oracle only.  Generated transaction histories on the real
 //!     `LedgerSimulator` (accounts, resources, key-value stores and objects moved into components by
 //!     a native test package, failures); after every commit the repo's `KernelDatabaseChecker`,
-//!     `SystemDatabaseChecker` (+ resource/role-assignment application checkers) run over the whole
+//!     `SystemDatabaseChecker` (+ the role-assignment application checker) run over the whole
 //!     database.  Payload-vs-schema conformance and role validity are judged only here — they are not
 //!     in the Lean model.
 use harness::util::*;
